@@ -284,7 +284,7 @@ func rulesC04(w *World, r *Report) {
 				var tags ISet
 				desc := e.Kind
 				switch {
-				case e.Kind == "loophead" || e.Kind == "fieldstore" || e.Kind == "register":
+				case e.Kind == "loophead" || e.Kind == "fieldstore" || e.Kind == "register" || e.Kind == "typetest" || strings.HasPrefix(e.Kind, "encode:"):
 					continue // the class definition belongs to the object production
 				case e.Kind == "ref":
 					tags = nil // the found outcome: a back-reference, nothing registered
